@@ -394,7 +394,7 @@ func RunC08(tier string, args []string) int {
 	}
 	total := fw.HStats{}
 	exhaustive := true
-	deadline := time.Now().Add(20 * time.Minute)
+	deadline := time.Now().Add(60 * time.Minute)
 	for _, disk := range []bool{false, true} {
 		for _, variant := range c08Variants(c) {
 			variant := variant
@@ -426,10 +426,10 @@ func RunC08(tier string, args []string) int {
 	}
 	// schedule half
 	bound, maxExec := 2, 300000
-	sdeadline := time.Now().Add(120 * time.Second)
+	perScenario, nshards := 120*time.Second, 16
 	if tier == "thorough" {
 		bound, maxExec = 3, 20000000
-		sdeadline = time.Now().Add(30 * time.Minute)
+		perScenario, nshards = 30*time.Minute, 64
 	}
 	var reports []schedReport
 	execs, points := 0, 0
@@ -442,7 +442,7 @@ func RunC08(tier string, args []string) int {
 			if disk && tier != "thorough" {
 				b = 1
 			}
-			outs := runWorkers("C08", sc.Name, b, maxExec/16+1, sdeadline, 16)
+			outs := runWorkers("C08", sc.Name, b, maxExec/nshards+1, time.Now().Add(perScenario), nshards)
 			rep := mergeWorkerOuts(chk, sc.Name, outs)
 			reports = append(reports, rep)
 			execs += rep.Executions
